@@ -223,6 +223,9 @@ func runC06(p *P, r *R) {
 		return constructHas(o, "(*bufferSlice).update", "newBufferSlice", "(*bufferSlice).reset")
 	})
 	borrow(p, r, "C09", runC09, map[string]string{"R09.5": "R06.6", "R09.6": "R06.6", "R09.9": "R06.6"}, nil)
+	// ---- R06.7 per-stream byte order across the two transports: once bytes left through the connection the stream stays
+	// there (sticky mark, set whenever the buffer spilled out of shared memory) (shared with C07 R07.2 / R07.3)
+	borrow(p, r, "C07", runC07, map[string]string{"R07.2": "R06.7", "R07.3": "R06.7"}, nil)
 
 	// ---- R06.4 cursor writers
 	cursorOwners := map[string]bool{
